@@ -253,3 +253,22 @@ def path_bool_edges(body, name):
                     (fe if v == 0 else te).add((i, b))
                 te.add((i, t['else']))
     return te, fe
+
+
+def equality_tests(F, body, through=()):
+    """every equality test in body: `a == b` as MIR BinaryOp Eq/Ne or as a PartialEq::eq/ne call.
+    Yields (bb, negated, sources(a), sources(b), true_edges, false_edges) with edges meaning `a == b` true / false."""
+    out = []
+    for (bb, j, op, a, b, dest) in prims.compare_sites(body, ops=('Eq', 'Ne')):
+        te, fe = prims.bool_local_edges(body, dest)
+        if op == 'Ne':
+            te, fe = fe, te
+        out.append((bb, op == 'Ne', prims.sources(body, a, through=through), prims.sources(body, b, through=through), te, fe))
+    for t in body.calls('core::cmp::PartialEq::eq', 'core::cmp::PartialEq::ne'):
+        tr = prims.track_result(F, body, t)
+        te, fe = tr.success, tr.failure
+        neg = t.d['f'].endswith('::ne')
+        if neg:
+            te, fe = fe, te
+        out.append((t.bb, neg, prims.sources(body, t.d['a'][0], through=through), prims.sources(body, t.d['a'][1], through=through), te, fe))
+    return out
